@@ -116,6 +116,14 @@ def run(chk):
                     cell.extend(rng.choice([['+', 'k', 'a'], ['+', 't', 'o'], ['m', 'a']]))
                 elif r < 0.5 and len(cell) >= 3 and '+' not in (cell[0], cell[1], cell[2]):
                     cell.insert(1, '+')
+                elif r < 0.7 and '+' in cell:
+                    # a border moved by one segment (assignment to two positions: the length of the cell stays what it was)
+                    p_ = list(cell).index('+')
+                    if p_ + 1 < len(cell):
+                        cell[p_], cell[p_ + 1] = cell[p_ + 1], '+'
+                elif r < 0.85 and len(cell) >= 3:
+                    # a segment overwritten by a border marker (a hyphen of the source replaced): same length, one more morpheme
+                    cell[rng.randrange(1, len(cell) - 1)] = '+'
                 segs = list(cell)
                 if any(not m for m in ' '.join(segs).split(' + ')) or segs[0] == '+' or segs[-1] == '+' or any(a == b == '+' for a, b in zip(segs, segs[1:])):
                     cell = seglist(list(d[k][3]))          # the edit made an empty morpheme: malformed, keep the cell as it was
